@@ -256,6 +256,7 @@ def request(agg, c, observe):
         if observe:
             obs["Hcur"] = numpy.array(H.data, dtype=float).copy()
             SS = accumulated()
+            obs["Zs"] = [numpy.array(Z, dtype=float).copy() for Z in qr.Manager().basis_transformations[1:]]
             obs["S"] = numpy.eye(n) if SS is None else numpy.array(SS, dtype=float)
             obs["S1"] = numpy.linalg.inv(obs["S"])
             obs["U"] = numpy.array(H.get_diagonalization_matrix(), dtype=float)
@@ -536,6 +537,11 @@ def run_dm(chk, c, items, meta):
                                   "%s: the state differs from the one requested outside any context by %g (site basis)" % (what, dev),
                                   "monitor", c)
     # ---- correspondence
+    if c["ctx"] != "none" and n <= 5 and len(BP_ITEMS) < BP_MAX[0]:
+        # the accumulated transformation handed to the model below is Model.C14.basis_product of the run's own stack of transformations
+        BP_ITEMS.append("(%d%%nat, %s, %s)" % (n, cm.clist([qmatl(Z) for Z in obs["Zs"]]), qmatl(S)))
+        BP_META.append(c)
+        chk.count("bp:contexts=%d" % len(obs["Zs"]))
     re = reorg_list(agg, n, start)
     kT = None if c["temp"] == 0.0 else fr(kB_intK) * fr(c["temp"])
     if kT is None:
@@ -764,8 +770,12 @@ def run_agg_rdm(chk, c):
 
 
 # ------------------------------------------------------------------ run
+BP_ITEMS, BP_META, BP_MAX = [], [], [40]
+
+
 def run(chk, cases):
     pop_items, pop_meta, dm_items, dm_meta = [], [], [], []
+    BP_MAX[0] = 40 if chk.tier == "quick" else 200
     import time
     tk = {}
     for c in cases:
@@ -800,12 +810,18 @@ def run(chk, cases):
                       "Definition cs : list (dmcase * option (list (list Q))) := %s.\n"
                       "Eval vm_compute in (bad (dm_agrees (Qmake 1 10000000000)) cs).\n" % cm.clist(dm_items[k:k + CD]))
         index.append(("dm", k, CD))
+    CB = 10
+    for k in range(0, len(BP_ITEMS), CB):
+        shards.append(cm.HEADER + "From QV Require Import Base.Alg Base.Util Model.C14.\nOpen Scope Q_scope.\n"
+                      "Definition cs : list case_bp := %s.\nEval vm_compute in (bad (bp_agrees (Qmake 1 1000000000000)) cs).\n"
+                      % cm.clist(BP_ITEMS[k:k + CB]))
+        index.append(("bp", k, CB))
     import time
     t0 = time.time()
     results = cm.coq_eval(PID, shards)
     chk.notes.append("coq evaluation of %d shards: %.1f s" % (len(shards), time.time() - t0))
     for (kind, k, ch), (rc, out) in zip(index, results):
-        meta = pop_meta if kind == "pop" else dm_meta
+        meta = pop_meta if kind == "pop" else (BP_META if kind == "bp" else dm_meta)
         if rc != 0:
             chk.violation("correspondence:coq_error", "coqc failed on %s cases: %s" % (kind, out[-600:]), "correspondence",
                           {"kind": kind}, found_input=False)
@@ -817,7 +833,8 @@ def run(chk, cases):
         chk.corr["disagreements"] += len(badl)
         for i in badl[:3]:
             cc = meta[k + i]
-            sig = "correspondence:" + ("thermal_population" if kind == "pop" else "get_DensityMatrix:" + cc["req"])
+            sig = "correspondence:" + ("thermal_population" if kind == "pop" else
+                                       ("accumulated_basis_transformation" if kind == "bp" else "get_DensityMatrix:" + cc["req"]))
             chk.violation(sig, "implementation differs from Model.C14 (repaired variants) on %s" % json.dumps(cc)[:700],
                           "correspondence", cc, found_input=False)
 
